@@ -328,6 +328,11 @@ class Engine:
             if all(b is None for b in bs):
                 if o.kind == "raw":
                     return self.zero_of(ty)
+                fn = st.frames[-1].func.name if st.frames else ""
+                if k == "int" and ("vectorIbSaIbEE" in fn or "Bit_iterator" in fn or "bvector" in fn):
+                    # std::vector<bool> read-modify-writes whole words of fresh storage: the unset bits are arbitrary
+                    self.fresh_n = getattr(self, "fresh_n", 0) + 1
+                    return z3.BitVec("uninit_word_%d" % self.fresh_n, ty.bits)
                 raise MemError("read of uninitialised memory %s+%d (%s)" % (o.name or o.id, off, ty.s()))
             bs = [0 if b is None else b for b in bs]
         if all(isinstance(b, int) for b in bs):
